@@ -223,9 +223,9 @@ pub fn time_partial<S: Src>(s: &mut S, with: bool) {
 }
 
 crate::harnesses! { REGISTRY;
-    c17_date_from_partial_2000 [unwind 6] = |s| date_from_partial(s, 1999, 2001);
-    c17_date_from_partial_limits [unwind 6] = |s| date_from_partial(s, 275759, 275761);
-    c17_date_with_2000 [unwind 6] = |s| date_with(s, 1999, 2001);
+    c17_date_from_partial_2000 [unwind 15] = |s| date_from_partial(s, 1999, 2001);
+    c17_date_from_partial_limits [unwind 15] = |s| date_from_partial(s, 275759, 275761);
+    c17_date_with_2000 [unwind 15] = |s| date_with(s, 1999, 2001);
     c17_time_from_partial [unwind 8] = |s| time_partial(s, false);
     c17_time_with [unwind 8] = |s| time_partial(s, true);
 }
